@@ -102,7 +102,8 @@ fn param_bits(p: &LayerParams, out: &mut Vec<u32>) {
 /// one training run: per-epoch losses, validation metrics, final weights — as bit patterns
 pub fn seg_learn(opt: &str, batch: usize) -> Vec<u32> {
     let mut net = network(opt);
-    let (xs, ts) = samples(5, 1);
+    // batches beyond the small bound get enough samples for one full and one partial group
+    let (xs, ts) = samples(if batch > 5 { batch + 8 } else { 5 }, 1);
     let (vx, vt) = samples(65, 2);
     let (xr, tr): (Vec<&Tensor>, Vec<&Tensor>) = (xs.iter().collect(), ts.iter().collect());
     let (vxr, vtr): (Vec<&Tensor>, Vec<&Tensor>) = (vx.iter().collect(), vt.iter().collect());
@@ -164,7 +165,19 @@ pub fn partition(n: usize) -> Vec<Vec<usize>> {
         .collect()
 }
 
-pub const SEGMENTS: [&str; 8] = ["learn-adam-b2", "learn-adam-b3", "learn-adam-b5", "learn-sgdm-b2", "learn-sgdm-b3", "learn-sgdm-b5", "validate", "predict_batch"];
+pub const SEGMENTS: [&str; 10] = [
+    "learn-adam-b2",
+    "learn-adam-b3",
+    "learn-adam-b5",
+    "learn-sgdm-b2",
+    "learn-sgdm-b3",
+    "learn-sgdm-b5",
+    "validate",
+    "predict_batch",
+    // beyond the small bound (explored with a cap on non-canonical choices per region)
+    "learn-adam-b17",
+    "learn-sgdm-b32",
+];
 
 pub fn run_segment(name: &str) -> Vec<u32> {
     match name {
@@ -174,6 +187,8 @@ pub fn run_segment(name: &str) -> Vec<u32> {
         "learn-sgdm-b2" => seg_learn("sgdm", 2),
         "learn-sgdm-b3" => seg_learn("sgdm", 3),
         "learn-sgdm-b5" => seg_learn("sgdm", 5),
+        "learn-adam-b17" => seg_learn("adam", 17),
+        "learn-sgdm-b32" => seg_learn("sgdm", 32),
         "validate" => seg_validate(),
         "predict_batch" => seg_predict(),
         "canary" => seg_canary(),
